@@ -47,11 +47,28 @@ class ClustererDouble:
         self.n_fit += 1
         self.fitted = True
         self.label_of = {}
+        self._X_fit = np.asarray(X, dtype=float).copy()
+        self._hard = None
         if self.script is not None:
             self.K = self.script["K"]
         else:
             self.K = integer(self.ctx, f"K{self.n_fit}", lo=1, hi=self.kmax).resolve(1, self.kmax)
         return self
+
+    @property
+    def labels_(self):
+        """hard labels of the training points produced by the fit itself: in [0,K), but *not* necessarily what predict() says for
+        the same points (boundary points of overlapping clusters differ in the real model). Forked lazily, only if the code reads them."""
+        if not self.fitted:
+            raise AttributeError("labels_")
+        if self._hard is None:
+            n = len(self._X_fit)
+            if self.script is not None:
+                f = self.script.get("hard_labels", self.script.get("by_point"))
+                self._hard = np.array([f(self._X_fit[i]) for i in range(n)], dtype=int)
+            else:
+                self._hard = np.array([integer(self.ctx, f"hard{self.n_fit}_{i}", lo=0, hi=self.K - 1).resolve(0, self.K - 1) for i in range(n)], dtype=int)
+        return self._hard
 
     def predict(self, X):
         if not self.fitted:
@@ -63,15 +80,24 @@ class ClustererDouble:
         elif self.script is not None:
             lab = np.array(self.script["labels"][self.n_predict - 1][:n], dtype=int)
         else:
-            lab = []
-            for i in range(n):
-                key = tuple(np.round(np.asarray(X[i], dtype=float), 9).tolist())
-                if key not in self.label_of:
-                    self.label_of[key] = integer(self.ctx, f"lab{self.n_predict}_{i}", lo=0, hi=self.K - 1).resolve(0, self.K - 1)
-                lab.append(self.label_of[key])
-            lab = np.array(lab, dtype=int)
+            lab = np.array([self.label_for(X[i]) for i in range(n)], dtype=int)
         self.predict_log.append((np.asarray(X, dtype=float).copy(), lab.copy()))
         return lab
+
+    def label_for(self, x):
+        """the label predict() gives to point x (a function of the point; forked on first use)."""
+        if self.script is not None and "by_point" in self.script:
+            return int(self.script["by_point"](x))
+        key = tuple(np.round(np.asarray(x, dtype=float), 9).tolist())
+        if key not in self.label_of:
+            self.label_of[key] = integer(self.ctx, f"lab{len(self.label_of)}", lo=0, hi=self.K - 1).resolve(0, self.K - 1)
+        return self.label_of[key]
+
+    def training_labels(self):
+        """(training points of the last fit, the labels predict() assigns to them) - the reference partition of the clause
+        'fitted from the particles of that same cluster'."""
+        X = self._X_fit
+        return X, np.array([self.label_for(X[i]) for i in range(len(X))], dtype=int)
 
 
 class FitDouble:
@@ -185,7 +211,7 @@ def make_pipeline(cluster_every, npool, n_particles, kmax, first_iter_range=(1, 
         assign = [int(a) for a in assign]
         raw = [int(a) for a in raw]
         # labels of the trimmed training points as the trainer saw them: first predict call after the (re)fit
-        X_train, lab_train = clusterer.predict_log[0]
+        X_train, lab_train = clusterer.training_labels()
         ok_range = all(0 <= a < ms.K for a in assign)
         ctx.check("every-assignment-refers-to-an-existing-mode", z3.BoolVal(bool(ok_range)),
                   detail={"assignments": assign, "n_modes": int(ms.K), "training_labels": lab_train.tolist()})
@@ -238,10 +264,14 @@ def make_pipeline(cluster_every, npool, n_particles, kmax, first_iter_range=(1, 
             "two-clusters-unsorted-duplicates": (lambda x: int(float(np.asarray(x).ravel()[0]) > 0.5), lambda a, size: [int(a[-1]), int(a[0]), int(a[-1]), int(a[1])]),
             "only-label-1-occurs": (lambda x: 1, lambda a, size: [int(a[0]), int(a[1]), int(a[0]), int(a[1])]),
             "cluster-without-training-points": (lambda x: int(float(np.asarray(x).ravel()[0]) > 0.79), lambda a, size: [int(a[-1]), int(a[0]), int(a[-1]), int(a[0])]),
+            "hard-fit-labels-differ-from-predict-on-a-boundary-point": (lambda x: int(float(np.asarray(x).ravel()[0]) > 0.5), lambda a, size: [int(a[1]), int(a[0]), int(a[1]), int(a[2])]),
         }
         problems = []
         for name, (by_point, pick) in scenarios.items():
-            c2 = ClustererDouble(None, kmax, script={"K": 2, "by_point": by_point})
+            script = {"K": 2, "by_point": by_point}
+            if name.startswith("hard-fit-labels"):
+                script["hard_labels"] = lambda x: int(float(np.asarray(x).ravel()[0]) > 0.3)
+            c2 = ClustererDouble(None, kmax, script=script)
             f2 = FitDouble(None, inf_dof=[bool(m.get(f"dof_inf{j}", False)) for j in range(8)])
             try:
                 st2, u2, ms2, a2, raw2 = run(None, cluster_every, c2, f2, lambda a, size, pick=pick: np.array(pick(a, size)[: int(size)], dtype=int))
@@ -251,7 +281,7 @@ def make_pipeline(cluster_every, npool, n_particles, kmax, first_iter_range=(1, 
             own = [by_point(v) for v in st2.get_current("u")]
             if list(map(int, raw2)) != own:
                 problems.append((name, f"assignments {list(map(int, raw2))} are not the labels {own} predicted for those particles"))
-            X_train, lab_train = c2.predict_log[0]
+            X_train, lab_train = c2.training_labels()
             for a_, r_ in zip(a2, raw2):
                 mem = frozenset(np.round(X_train[lab_train == r_, 0], 9).tolist())
                 if not (0 <= a_ < ms2.K):
@@ -306,5 +336,5 @@ def make_global(npool):
 def obligations(tier):
     obs = [make_pipeline(1, 4, 2, 2), make_pipeline(3, 4, 1, 2), make_pipeline(5, 3, 1, 2), make_global(4)]
     if tier == "thorough":
-        obs += [make_pipeline(1, 5, 2, 3), make_pipeline(2, 4, 2, 2), make_pipeline(7, 4, 1, 2, first_iter_range=(1, 15))]
+        obs += [make_pipeline(1, 5, 1, 3), make_pipeline(1, 4, 2, 3), make_pipeline(2, 4, 2, 2), make_pipeline(7, 4, 1, 2, first_iter_range=(1, 15))]
     return obs
